@@ -184,6 +184,10 @@ def ctrsbox_pgd(xopt, g, H, projections, delta, d_max_iters=100, d_tol=1e-10, us
 
     # Initial guess of L is norm(Hessian)
     L = np.linalg.norm(H, 2)
+    if L < ZERO_THRESH:
+        # Model is linear (e.g. zero Jacobian): the step length 1/L is undefined, so solve the linear problem instead
+        d = ctrsbox_linear(xopt, g, projections, delta, d_max_iters=d_max_iters, d_tol=d_tol)
+        return d, g + H.dot(d), 0.0
 
     # trust region is a ball of radius delta around xopt
     trproj = lambda w: pball(w, xopt, delta)
